@@ -66,18 +66,29 @@ S_CFG = st.one_of(_named(), _named(), _named(),
 
 
 _S_SAME = st.sampled_from([False] * 7 + [True])
-_S_0_3 = st.integers(0, 3)
+_ALT = [{'kind': 'named', 'units': {'length': 'nm', 'mass': 'kg', 'energy': 'J'}}, {'kind': 'SI'}]
 
 
 @st.composite
 def cfg_pairs(draw):
-    """(writing, reading) configurations: about 1 in 4 identical"""
+    """(writing, reading) configurations: about 1 in 8 identical"""
     w = draw(S_CFG)
-    r = w if draw(_S_SAME) else draw(S_CFG)
+    if draw(_S_SAME):
+        return w, w
+    r = draw(S_CFG)
+    if r == w:                      # Hypothesis favours its simplest choices: make the pair differ by construction
+        r = [a for a in _ALT if a != w][0]
     return w, r
 
 
+S_CFG_PAIR = cfg_pairs()
 S_ENC = st.sampled_from(['dict', 'json', 'json', 'xml', 'xml', 'xml'])
+_S_CELL = gens.cells()
+_S_CELL_SCALED = gens.cells(scaled=True)
+_S_ERR = gens.nice(0.0, 10.0, 4)
+_S_REL = gens.nice(-1.0, 2.0, 4)
+_S_SREL = gens.nice(-2.0, 3.0, 4)
+_S_POS = gens.nice(-50.0, 50.0, 4)
 
 # ----------------------------------------------------------------------------- numbers
 _MAG = st.sampled_from([1.0, 1.0, 1.0, 1.0, 1e-3, 1e3, 1e-12, 1e9, 1e-20, 1e20])
@@ -135,8 +146,8 @@ def value_cases(draw):
     v = _floats(draw, shape) if kind == 'f' else _nested(draw, shape, _I)
     err = None
     if kind == 'f' and draw(_S_0_3) == 0:
-        err = _nested(draw, shape, gens.nice(0.0, 10.0, 4))
-    w, r = draw(cfg_pairs())
+        err = _nested(draw, shape, _S_ERR)
+    w, r = draw(S_CFG_PAIR)
     return {'shape': shape, 'kind': kind, 'unit': unit, 'v': v, 'error': err,
             'form': draw(_sf(('np', 'np', 'np0d', 'py',))), 'enc': draw(S_ENC), 'cfgW': w, 'cfgR': r}
 
@@ -144,8 +155,8 @@ def value_cases(draw):
 # ----------------------------------------------------------------------------- box
 @st.composite
 def box_cases(draw):
-    w, r = draw(cfg_pairs())
-    return {'cell': draw(gens.cells(scaled=True)), 'unit': draw(S_BOX_UNIT),
+    w, r = draw(S_CFG_PAIR)
+    return {'cell': draw(_S_CELL_SCALED), 'unit': draw(S_BOX_UNIT),
             'enc': draw(S_ENC), 'ctor': draw(S_BOOL), 'cfgW': w, 'cfgR': r}
 
 
@@ -179,7 +190,7 @@ def _props(draw, natoms, scaled_ok):
             if scaled_ok and rest and rest[-1] == 3 and draw(_S_0_2) > 0:
                 unit = 'scaled'
             if unit == 'scaled':
-                vals = _nested(draw, shape, gens.nice(-2.0, 3.0, 4))
+                vals = _nested(draw, shape, _S_SREL)
             else:
                 vals = _floats(draw, shape)
         elif kind == 'i':
@@ -201,7 +212,7 @@ def _order(draw, names):
 def atoms_cases(draw):
     n = draw(_S_NATOMS)
     ntypes = draw(_si(1, 3))
-    w, r = draw(cfg_pairs())
+    w, r = draw(S_CFG_PAIR)
     props = _props(draw, n, scaled_ok=False)
     names = ['atype', 'pos'] + [p['name'] for p in props]
     sel = 'all'
@@ -210,7 +221,7 @@ def atoms_cases(draw):
         if draw(_S_0_3) == 0 and len(sel) > 2:
             sel = sel[:draw(_si(1, len(sel) - 1))]
     return {'natoms': n, 'atype': [draw(_si(1, ntypes)) for _ in range(n)],
-            'pos': _nested(draw, [n, 3], gens.nice(-50.0, 50.0, 4)),
+            'pos': _nested(draw, [n, 3], _S_POS),
             'pos_unit': draw(S_LEN_UNIT_OR_NONE), 'props': props, 'select': sel,
             'how': draw(_sf(('prop_unit', 'prop_name',))), 'enc': draw(S_ENC), 'cfgW': w, 'cfgR': r}
 
@@ -247,7 +258,7 @@ def system_cases(draw):
             masses = [None if draw(S_BOOL) else m for m in masses]
         if mk == 'first_none':
             masses[0] = None
-    w, r = draw(cfg_pairs())
+    w, r = draw(S_CFG_PAIR)
     props = _props(draw, n, scaled_ok=True)
     names = ['atype', 'pos'] + [p['name'] for p in props]
     sel = 'all'
@@ -257,8 +268,8 @@ def system_cases(draw):
     enc = draw(S_ENC)
     if route in ('dump_f', 'dump_path') and enc == 'dict':
         enc = 'xml'
-    case = {'cell': draw(gens.cells()), 'pbc': draw(gens.pbcs), 'natoms': n, 'atype': atype,
-            'rel': _nested(draw, [n, 3], gens.nice(-1.0, 2.0, 4)), 'symbols': symbols, 'masses': masses,
+    case = {'cell': draw(_S_CELL), 'pbc': draw(gens.pbcs), 'natoms': n, 'atype': atype,
+            'rel': _nested(draw, [n, 3], _S_REL), 'symbols': symbols, 'masses': masses,
             'pos_unit': draw(_sf((None, 'scaled', 'scaled', 'angstrom', 'nm', 'm',))),
             'box_unit': draw(_sf((None, 'angstrom', 'nm', 'm', 'aBohr',))),
             'props': props, 'select': sel, 'how': draw(_sf(('prop_unit', 'prop_name',))),
@@ -329,7 +340,7 @@ def elastic_cases(draw):
              'C23': draw(_OFF), 'C44': draw(_SHEAR), 'C55': draw(_SHEAR), 'C66': draw(_SHEAR),
              'C14': draw(_COUP), 'C15': draw(_COUP0), 'C16': draw(_COUP0)}
         C = [[x * s for x in row] for row in ec_matrix(fam, p)]
-    w, r = draw(cfg_pairs())
+    w, r = draw(S_CFG_PAIR)
     return {'family': fam, 'Cij': C, 'normalize': draw(_sf(('family', 'family', 'triclinic', 'default',))),
             'unit': draw(S_PRESSURE_OR_NONE),
             'enc': draw(S_ENC), 'ctor': draw(S_BOOL), 'cfgW': w, 'cfgR': r}
